@@ -1511,13 +1511,13 @@ func (f *frame) active(g *ssa.Function) bool {
 
 // walkState is the part of a path under construction that is shared by value between branches.
 type walkState struct {
-	blocks []*ssa.BasicBlock
-	facts  []Fact
-	canon  []Fact           // the facts with interface getters resolved on values whose dynamic type the path knows
-	dyn    map[string]*Term // rendering of a value -> the successful assertion of its concrete type on this path
-	steps  []step
-	done   []*Ctx // contexts of helper activations that already returned
-	ninst  int    // helper activations started so far
+	blocks  []*ssa.BasicBlock
+	facts   []Fact
+	canon   []Fact           // the facts with interface getters resolved on values whose dynamic type the path knows
+	dyn     map[string]*Term // rendering of a value -> the successful assertion of its concrete type on this path
+	steps   []step
+	done    []*Ctx // contexts of helper activations that already returned
+	ninst   int    // helper activations started so far
 	foreign []*Ctx // activations of the path a closure under enumeration was created on
 }
 
